@@ -1085,6 +1085,9 @@ func (r *Runner) growTrack() bool {
 	copy(newTrack[newLen-oldLen:], r.runtrack)
 	r.Runtrackpos += newLen - oldLen
 	r.runtrack = newTrack
+	if verifOn {
+		verifNoteTrackCap(len(r.runtrack))
+	}
 	return true
 }
 
@@ -1977,6 +1980,9 @@ func (r *Runner) initMatch(textInfo *matchText) {
 
 	r.runtrack = make([]int, tracksize)
 	r.Runtrackpos = tracksize
+	if verifOn {
+		verifNoteTrackCap(len(r.runtrack))
+	}
 
 	r.runstack = make([]int, stacksize)
 	r.Runstackpos = stacksize
